@@ -222,7 +222,8 @@ dt_get_wday(struct dt_d_s that)
 	case DT_YD:
 		return __yd_get_wday(that.yd);
 	case DT_UMMULQURA:
-		;
+		/* the week is the same in every calendar */
+		return __daisy_get_wday(dt_conv_to_daisy(that));
 	default:
 	case DT_DUNK:
 		return DT_MIRACLEDAY;
@@ -315,6 +316,11 @@ dt_get_wcnt_year(struct dt_d_s this, unsigned int wkcnt_convention)
 	int res;
 
 	switch (this.typ) {
+	case DT_BIZDA:
+		/* go through ymd */
+		this.ymd = __bizda_to_ymd(this.bizda);
+		this.typ = DT_YMD;
+		/*@fallthrough@*/
 	case DT_YMD:
 	case DT_DAISY:
 	case DT_YD: {
@@ -443,6 +449,10 @@ dt_get_bday_q(struct dt_d_s that, dt_bizda_param_t bp)
 		return __ymd_get_bday(that.ymd, bp);
 	case DT_YMCW:
 		return __ymcw_get_bday(that.ymcw, bp);
+	case DT_YD:
+		return __ymd_get_bday(__yd_to_ymd(that.yd), bp);
+	case DT_YWD:
+		return __ymd_get_bday(__ywd_to_ymd(that.ywd), bp);
 	default:
 	case DT_DUNK:
 		return 0;
